@@ -1600,5 +1600,38 @@ end Goml.Gen
 EXTRACTORS += [c03_gen_ty_consts]
 EXTRACTORS += [gen_dce_tables]
 
+# ---------------------------------------------------------------- C09: guards of anf.rs
+def c09_anf_guards():
+    """which right operands of && / || `anf` keeps as a plain binary operator (no `if` lowering), and what
+    `anf_imm` passes on without naming: both must be exactly the immediates `EVar | EPrim`"""
+    t = re.sub(r"\s+", " ", src("crates/compiler/src/anf.rs"))
+    m = re.search(r"LiftExpr::EBinary \{ op: op @ \(BinaryOp::And \| BinaryOp::Or\), lhs, rhs, ty: _, \} "
+                  r"if !matches!\( ?\*rhs, (.*?) ?\) => \{ let short_circuit", t)
+    if not m:
+        raise Exception("anf.rs: guard of the EBinary{And|Or} arm (`if !matches!(*rhs, …)`) not found")
+    alts = [a.strip() for a in m.group(1).split("|")]
+    kinds = []
+    for a in alts:
+        k = re.fullmatch(r"LiftExpr::(\w+) \{ \.\. \}", a)
+        if not k:
+            raise Exception(f"anf.rs: And|Or guard alternative not of the form `LiftExpr::X {{ .. }}`: {a}")
+        kinds.append(k.group(1))
+    body = block_after(t, r"fn anf_imm<'a>\(.*?\) -> AExpr \{", "anf_imm")
+    arms = re.findall(r"LiftExpr::(\w+) \{[^}]*\} => k\(", body)
+    if "_ => { let name = gensym.gensym(\"t\");" not in body:
+        raise Exception("anf.rs: anf_imm no longer names every other expression with gensym(\"t\")")
+    ls = lambda xs: "[" + ", ".join(f'"{x}"' for x in xs) + "]"
+    write_if_changed("AnfGuards.lean", f"""/- GENERATED by tools/extract.py (c09_anf_guards) from crates/compiler/src/anf.rs — do not edit; regenerated on every ./check run -/
+namespace Goml.Anf.Gen
+/-- `LiftExpr` variants accepted by `matches!(*rhs, …)` in the `EBinary {{ op: And | Or }}` arm of `anf`:
+    right operands for which `&&` / `||` is NOT lowered to `if` -/
+def trivialRhsKinds : List String := {ls(kinds)}
+/-- `LiftExpr` variants `anf_imm` passes to its continuation without naming them -/
+def immKinds : List String := {ls(arms)}
+end Goml.Anf.Gen
+""")
+
+EXTRACTORS += [c09_anf_guards]
+
 if __name__ == "__main__":
     main()
